@@ -51,6 +51,19 @@ func c07Run(x *core.Ctx) {
 		src := rn.RenderSDoc(&model.SDoc{Items: items})
 		c := core.NewCase("schema", "src", src, "expect", "load")
 		x.Do(c, func() { c07Check(x, c) })
+		split := func(c *core.Case, its []*model.Item) {
+			// the same definitions over two or three sources (the loader merges sources before it validates)
+			if len(its) < 3 || (i+len(its))%3 != 0 {
+				return
+			}
+			k := 2 + r.Intn(2)
+			for j := 1; j < k; j++ {
+				lo, hi := j*len(its)/k, (j+1)*len(its)/k
+				c.Set(fmt.Sprintf("src%d", j+1), rn.RenderSDoc(&model.SDoc{Items: its[lo:hi]}))
+			}
+			c.Set("src", rn.RenderSDoc(&model.SDoc{Items: its[:len(its)/k]}))
+			c.Set("nsrc", fmt.Sprint(k))
+		}
 		// every applicable injector, one at a time
 		for fi, f := range tsys.Faults {
 			if !x.Quick() || (i+fi)%3 == 0 {
@@ -62,6 +75,7 @@ func c07Run(x *core.Ctx) {
 				}
 				fsrc := rn.RenderSDoc(&model.SDoc{Items: out})
 				fc := core.NewCase("schema", "src", fsrc, "expect", "reject:"+f.Code, "involved", strings.Join(involved, ","))
+				split(fc, out)
 				x.Do(fc, func() { c07Check(x, fc) })
 			}
 		}
@@ -103,7 +117,17 @@ func codesOf(vs []tsys.Violation) string {
 func c07Check(x *core.Ctx, c *core.Case) {
 	src := c.Get("src")
 	expect := c.Get("expect")
-	source := &ast.Source{Name: "schema.graphql", Input: src}
+	sources := []*ast.Source{{Name: "schema.graphql", Input: src}}
+	if c.Get("nsrc") != "" {
+		var n int
+		fmt.Sscan(c.Get("nsrc"), &n)
+		for j := 2; j <= n; j++ {
+			sources = append(sources, &ast.Source{Name: fmt.Sprintf("schema%d.graphql", j), Input: c.Get(fmt.Sprintf("src%d", j))})
+			src += "\n" + c.Get(fmt.Sprintf("src%d", j))
+		}
+		x.Count("multi_source_cases")
+	}
+	source := &ast.Source{Name: "all.graphql", Input: src}
 	sd, perr := parser.ParseSchema(source)
 	if perr != nil {
 		if expect != "random" {
@@ -116,7 +140,7 @@ func c07Check(x *core.Ctx, c *core.Case) {
 	items := model.FromSchemaAST(sd).Items
 	mg := tsys.Merge(items)
 	viol, extra := tsys.Check(mg)
-	schema, err := gqlparser.LoadSchema(&ast.Source{Name: "schema.graphql", Input: src})
+	schema, err := gqlparser.LoadSchema(sources...)
 	tmpl := ""
 	if err != nil {
 		tmpl = templateOf(err.Error())
